@@ -85,6 +85,7 @@ class HTTP2Connection(ConnectionInterface):
         self._read_exception: Exception | None = None
         self._reads_completed = 0
         self._unsent_stream_ids: set[int] = set()
+        self._withdrawn_stream_slots = 0
         self._write_exception: Exception | None = None
 
     def handle_request(self, request: Request) -> Response:
@@ -137,7 +138,7 @@ class HTTP2Connection(ConnectionInterface):
                         local_settings_max_streams, initial_value=self._max_streams
                     )
 
-            self._max_streams_semaphore.acquire()
+            self._acquire_stream_slot()
         except BaseException as exc:
             # The request ended before it was allocated a stream, so it no
             # longer keeps the connection from becoming idle.
@@ -151,7 +152,7 @@ class HTTP2Connection(ConnectionInterface):
         except h2.exceptions.NoAvailableStreamIDError:  # pragma: nocover
             self._used_all_stream_ids = True
             self._request_count -= 1
-            self._max_streams_semaphore.release()
+            self._release_stream_slot()
             self._request_closed()
             raise ConnectionNotAvailable()
 
@@ -279,6 +280,14 @@ class HTTP2Connection(ConnectionInterface):
 
         try:
             self._h2_state.send_headers(stream_id, headers, end_stream=end_stream)
+        except h2.exceptions.TooManyStreamsError:
+            # The server has lowered its limit on concurrent streams after we
+            # were given a slot. Nothing has been encoded or sent for this
+            # request. It is queued again, and waits for one of the slots that
+            # remain.
+            self._unsent_stream_ids.add(stream_id)
+            self._request_count -= 1
+            raise ConnectionNotAvailable()
         except h2.exceptions.ProtocolError:
             # The h2 package validates the headers while it is encoding them.
             # Fields that it had already dealt with have been added to the HPACK
@@ -471,11 +480,30 @@ class HTTP2Connection(ConnectionInterface):
             )
             if new_max_streams and new_max_streams != self._max_streams:
                 while new_max_streams > self._max_streams:
-                    self._max_streams_semaphore.release()
+                    self._release_stream_slot()
                     self._max_streams += 1
                 while new_max_streams < self._max_streams:
-                    self._max_streams_semaphore.acquire()
+                    # We must not wait here for a slot to become free: we are
+                    # holding the read lock, that the streams which are using
+                    # the slots need in order to finish. The slots are taken
+                    # out of use as they are released, or next acquired.
+                    self._withdrawn_stream_slots += 1
                     self._max_streams -= 1
+
+    def _acquire_stream_slot(self) -> None:
+        while True:
+            self._max_streams_semaphore.acquire()
+            if self._withdrawn_stream_slots == 0:
+                return
+            # The server has lowered its limit on concurrent streams, and this
+            # slot is one of those that are no longer to be used.
+            self._withdrawn_stream_slots -= 1
+
+    def _release_stream_slot(self) -> None:
+        if self._withdrawn_stream_slots > 0:
+            self._withdrawn_stream_slots -= 1
+        else:
+            self._max_streams_semaphore.release()
 
     def _response_closed(self, request: Request, stream_id: int) -> None:
         # If the response is closed before the stream has ended, then we need
@@ -493,7 +521,7 @@ class HTTP2Connection(ConnectionInterface):
             # The stream has already ended, or has never been opened.
             stream_was_reset = False
 
-        self._max_streams_semaphore.release()
+        self._release_stream_slot()
         del self._events[stream_id]
         self._request_closed()
 
